@@ -281,3 +281,156 @@ Proof.
     { apply bool_eq_iff. rewrite !same_bev_b_spec. now apply same_bev_move. }
     rewrite E. rewrite area_rect_move. reflexivity.
 Qed.
+
+(* ======================================================================================== *)
+(* soundness half of the clipper: the clipped polygon lies in BOTH polygons                  *)
+(* ======================================================================================== *)
+(* all vertices of [poly] are on the inner side of (or on) the directed line a -> b *)
+Definition within (a b : pt) (poly : list pt) : Prop := forall p, In p poly -> 0 <= cross a b p.
+
+Definition lerp (s e : pt) (t : Q) : pt := (fst s + t * (fst e - fst s), snd s + t * (snd e - snd s)).
+
+Lemma cross_lerp a b s e t : cross a b (lerp s e t) == (1 - t) * cross a b s + t * cross a b e.
+Proof. unfold cross, lerp. cbn [fst snd]. ring. Qed.
+
+Lemma intersect_lerp a b s e :
+  pt_eq (intersect a b s e) (lerp s e (cross a b s / (cross a b s - cross a b e))).
+Proof. unfold intersect, lerp, pt_eq. cbv zeta. cbn [fst snd]. split; apply Qred_correct. Qed.
+
+Lemma pt_eq_refl p : pt_eq p p.
+Proof. split; reflexivity. Qed.
+
+(* the crossing parameter is in [0,1] when the end points are on different sides *)
+Lemma cross_param_range ds de :
+  (0 <= ds /\ de < 0) \/ (ds < 0 /\ 0 <= de) -> 0 <= ds / (ds - de) <= 1.
+Proof.
+  intros [[H1 H2]|[H1 H2]].
+  - split; [apply Qdiv_nonneg; lra|apply Qdiv_le_1; lra].
+  - assert (E : ds / (ds - de) == (- ds) / (de - ds)) by (field; lra). rewrite E.
+    split; [apply Qdiv_nonneg; lra|apply Qdiv_le_1; lra].
+Qed.
+
+Lemma mixed_sides a b s e :
+  inside a b s <> inside a b e ->
+  (0 <= cross a b s /\ cross a b e < 0) \/ (cross a b s < 0 /\ 0 <= cross a b e).
+Proof.
+  unfold inside. intros H.
+  destruct (Qleb_spec 0 (cross a b s)), (Qleb_spec 0 (cross a b e)); try congruence; [left|right]; split; lra.
+Qed.
+
+(* a crossing point satisfies every linear inequality both end points satisfy ... *)
+Lemma intersect_keeps a' b' a b s e :
+  inside a b s <> inside a b e -> 0 <= cross a' b' s -> 0 <= cross a' b' e ->
+  0 <= cross a' b' (intersect a b s e).
+Proof.
+  intros M Hs He. apply mixed_sides in M. apply cross_param_range in M.
+  rewrite (cross_pt_eq _ _ _ _ _ _ (pt_eq_refl a') (pt_eq_refl b') (intersect_lerp a b s e)), cross_lerp.
+  set (t := cross a b s / (cross a b s - cross a b e)) in *.
+  assert (0 <= (1 - t) * cross a' b' s) by (apply Qmult_le_0_compat; lra).
+  assert (0 <= t * cross a' b' e) by (apply Qmult_le_0_compat; lra).
+  lra.
+Qed.
+
+(* ... and lies on the clipping line *)
+Lemma intersect_on_line a b s e :
+  inside a b s <> inside a b e -> cross a b (intersect a b s e) == 0.
+Proof.
+  intros M. apply mixed_sides in M.
+  rewrite (cross_pt_eq _ _ _ _ _ _ (pt_eq_refl a) (pt_eq_refl b) (intersect_lerp a b s e)), cross_lerp.
+  field. lra.
+Qed.
+
+Lemma clip_edge_aux_keeps a' b' a b prev l :
+  0 <= cross a' b' prev -> within a' b' l -> within a' b' (clip_edge_aux a b prev l).
+Proof.
+  revert prev. induction l as [|cur t IH]; intros prev Hp Hl p Hin; cbn [clip_edge_aux] in Hin; [contradiction|].
+  assert (Hc : 0 <= cross a' b' cur) by (apply Hl; now left).
+  assert (Ht : within a' b' t) by (intros q Hq; apply Hl; now right).
+  apply in_app_or in Hin. destruct Hin as [Hin|Hin]; [|exact (IH cur Hc Ht p Hin)].
+  destruct (inside a b cur) eqn:Ec, (inside a b prev) eqn:Ep; cbn [In] in Hin.
+  - destruct Hin as [<-|[]]. exact Hc.
+  - destruct Hin as [<-|[<-|[]]]; [|exact Hc]. apply intersect_keeps; try assumption. congruence.
+  - destruct Hin as [<-|[]]. apply intersect_keeps; try assumption. congruence.
+  - contradiction.
+Qed.
+
+Lemma clip_edge_aux_own a b prev l : within a b (clip_edge_aux a b prev l).
+Proof.
+  revert prev. induction l as [|cur t IH]; intros prev p Hin; cbn [clip_edge_aux] in Hin; [contradiction|].
+  apply in_app_or in Hin. destruct Hin as [Hin|Hin]; [|exact (IH cur p Hin)].
+  destruct (inside a b cur) eqn:Ec, (inside a b prev) eqn:Ep; cbn [In] in Hin.
+  - destruct Hin as [<-|[]]. now apply Qleb_true.
+  - destruct Hin as [<-|[<-|[]]]; [|now apply Qleb_true]. rewrite intersect_on_line; [lra|congruence].
+  - destruct Hin as [<-|[]]. rewrite intersect_on_line; [lra|congruence].
+  - contradiction.
+Qed.
+
+Lemma clip_edge_keeps a' b' a b poly : within a' b' poly -> within a' b' (clip_edge a b poly).
+Proof.
+  intros H. unfold clip_edge. destruct (rev poly) as [|lastp r] eqn:E; [intros p []|].
+  apply clip_edge_aux_keeps; [|exact H]. apply H. apply in_rev. rewrite E. now left.
+Qed.
+
+Lemma clip_edge_own a b poly : within a b (clip_edge a b poly).
+Proof.
+  unfold clip_edge. destruct (rev poly) as [|lastp r]; [intros p []|]. apply clip_edge_aux_own.
+Qed.
+
+(* the edges used by clip_edges *)
+Fixpoint edges_from (first : pt) (cl : list pt) : list (pt * pt) :=
+  match cl with
+  | [] => []
+  | a :: t => (a, match t with [] => first | b :: _ => b end) :: edges_from first t
+  end.
+
+Lemma edges_from_spec first cl : edges_from first cl = combine cl (tl cl ++ [first]).
+Proof.
+  induction cl as [|a t IH]; [reflexivity|]. cbn [edges_from tl].
+  destruct t as [|b t']; [reflexivity|]. cbn [app combine]. f_equal. rewrite IH. reflexivity.
+Qed.
+
+Lemma edges_edges_from cl : edges cl = match cl with [] => [] | f :: _ => edges_from f cl end.
+Proof. destruct cl as [|f t]; [reflexivity|]. rewrite edges_from_spec. reflexivity. Qed.
+
+Lemma clip_edges_keeps a' b' first cl poly : within a' b' poly -> within a' b' (clip_edges first cl poly).
+Proof.
+  revert poly. induction cl as [|a t IH]; intros poly H; cbn [clip_edges]; [exact H|].
+  apply IH. now apply clip_edge_keeps.
+Qed.
+
+Lemma clip_edges_own first cl poly :
+  forall ab, In ab (edges_from first cl) -> within (fst ab) (snd ab) (clip_edges first cl poly).
+Proof.
+  revert poly. induction cl as [|a t IH]; intros poly ab Hab; cbn [edges_from] in Hab; [contradiction|].
+  cbn [clip_edges]. destruct Hab as [<-|Hab].
+  - cbn [fst snd]. apply clip_edges_keeps. apply clip_edge_own.
+  - now apply IH.
+Qed.
+
+(* every vertex of the result is inside every edge of the clip polygon ... *)
+Lemma clip_within_clip subj cl :
+  forall ab, In ab (edges cl) -> within (fst ab) (snd ab) (clip subj cl).
+Proof.
+  intros ab Hab. rewrite edges_edges_from in Hab. unfold clip. destruct cl as [|f t]; [contradiction|].
+  now apply clip_edges_own.
+Qed.
+
+(* ... and satisfies every linear inequality that all vertices of the subject satisfy
+   (it lies in the subject's convex hull) *)
+Lemma clip_within_subject subj cl a' b' : within a' b' subj -> within a' b' (clip subj cl).
+Proof.
+  intros H. unfold clip. destruct cl as [|f t]; [intros p []|]. now apply clip_edges_keeps.
+Qed.
+
+(* for two boxes: the polygon whose area the evaluator reports lies in both footprints *)
+Lemma clip_boxes_sound e g :
+  box_valid e -> box_valid g ->
+  forall p, In p (clip (rcorners e) (rcorners g)) ->
+  (forall ab, In ab (edges (rcorners g)) -> 0 <= cross (fst ab) (snd ab) p) /\
+  (forall ab, In ab (edges (rcorners e)) -> 0 <= cross (fst ab) (snd ab) p).
+Proof.
+  intros Ve Vg p Hp. split; intros ab Hab.
+  - exact (clip_within_clip _ _ ab Hab p Hp).
+  - apply (clip_within_subject (rcorners e) (rcorners g)); [|exact Hp].
+    intros q Hq. apply Qleb_true. exact (rcorners_convex_ccw e Ve ab Hab q Hq).
+Qed.
